@@ -6,6 +6,12 @@ ENGINES = [
 NOTES = "Every deciding step is an exhaustive enumeration within stated bounds (see evidence coverage.rule and DESIGN.md). Exit 2 = harness could not be built/run against the tree (no verdict)."
 NA = {}
 TEXT = {
+    "C13": {
+        "engine": "bounded-exhaustive product enumerators",
+        "technique": "exhaustive enumeration of all ordered triples of a signature universe on the real comparator + all pair/triple snapshots through Aggregate",
+        "text": "The strict-weak-order laws (irreflexive, asymmetric, transitive, transitive incomparability) and the class contract (user code before all-stdlib, more package-main frames first) are evaluated on every ordered triple of a universe of 113 (quick) / 300+ (thorough) signatures spanning every frame-class sequence; every pair and triple of distinct signatures, with multiplicities and the first goroutine at each position, is pushed through the real Aggregate and the emitted order is checked.",
+        "note": "Binds to the unexported Signature.less for the law part; frames that are both package main and Stdlib (go-test main) count as main.",
+    },
     "C01": {
         "engine": "E1 choice-point explorer",
         "technique": "deviation-bounded exhaustive enumeration of a traceback-printer model's choice vectors against ground truth",
